@@ -335,6 +335,7 @@ let step_preds : (string * (vconfig -> fstep -> bool)) list = [
   ("c14_segments_ok", c14_segments_ok);
   ("c08_deadline_ok", c08_deadline_ok);
   ("c14_wire_ok", c14_wire_ok);
+  ("c17_fin_covers_data_ok", c17_fin_covers_data_ok);
   ("c18_off_all_segmented_ok", c18_off_all_segmented_ok);
   ("c18_drain_sends_ok", c18_drain_sends_ok);
   ("c18_buffered_segmented_ok", c18_buffered_segmented_ok);
@@ -396,6 +397,11 @@ let trace_preds : (string * (vconfig -> fstep list -> bool)) list = [
   ("c08_fires_ok", c08_fires_ok);
   ("c17_fin_seq_ok", c17_fin_seq_ok);
   ("c17_peer_fin_ok", c17_peer_fin_ok);
+  ("c17_peer_fin_ok2", c17_peer_fin_ok2);
+  ("c04_vsock_ack_guarded", c04_vsock_ack_guarded);
+  ("c04_consumed_honest_guarded", c04_consumed_honest_guarded);
+  ("c04_d22_class", c04_d22_class);
+  ("c06_stable_plen_ok_p", c06_stable_plen_ok_p);
   ("c17_reset_trace_ok", c17_reset_trace_ok);
   ("c03_after_death_ok", c03_after_death_ok);
   (* classifiers of known classes: OK = the trace is in the class *)
